@@ -9,6 +9,9 @@ Open Scope N_scope.
 Definition get_m (l : loader) (mpath : list N) : option mfile := assoc mpath (l_loaded l).
 Definition put_m (l : loader) (mpath : list N) (m : mfile) : loader :=
   set_loaded l (dict_set mpath m (l_loaded l)).
+(* the key [k] becomes [k'], in place *)
+Definition dict_rename {A} (k k' : list N) (d : list (list N * A)) : list (list N * A) :=
+  map (fun kv => if ustr_eqb (fst kv) k then (k', snd kv) else kv) d.
 
 Fixpoint find_id (es : list (N * entry)) (id : N) : option entry :=
   match es with [] => None | (j, e) :: r => if id =? j then Some e else find_id r id end.
@@ -604,11 +607,12 @@ Section Update.
                          match get_m l4 mpath with
                          | None => Err (XInternal IKey)
                          | Some m4 =>
-                             let l5 := put_m l4 new_mpath m4 in
+                             (* the renamed Manifest keeps its place in the load order *)
+                             let l5 := set_loaded l4 (dict_rename mpath new_mpath (l_loaded l4)) in
                              (* the top-level Manifest is known under its new name before it is written (so it is signed) *)
                              let l5' := if ustr_eqb mpath (l_top l5) then set_top l5 new_mpath else l5 in
                              '(w2, l6, _) <- save_manifest w1 l5' new_mpath false ;;
-                             let l7 := set_loaded l6 (dict_del mpath (l_loaded l6)) in
+                             let l7 := l6 in
                              w3 <- unlink_file w2 (pjoin rootdir mpath) ;;
                              Ok (w3, l7, fixed', renamed ++ [(mpath, new_mpath)])
                          end
